@@ -1,5 +1,5 @@
 """C11 - statuses are invariant under presentation and local to components (renaming and mapping clauses)"""
-from . import invariance, provenance, readers, accept
+from . import grounded, invariance, provenance, readers, accept
 
 
 def run(ctx):
@@ -11,6 +11,7 @@ def run(ctx):
     provenance.rule_fresh_solver_per_encoding(ctx)
     accept.rule_completion_semantics(ctx)
     readers.rule_declaration_order(ctx)
+    grounded.rule_grounded_propagation(ctx)
     ctx.assume("parametricity: code generic in T with only LabelType's bounds, no reflection and no iteration of label-keyed maps cannot branch on what a label is, only on equality of labels")
     ctx.assume("rustc's generics/predicates tables and MIR")
     return (
